@@ -38,6 +38,7 @@ import (
 	"google.golang.org/grpc/credentials/insecure"
 
 	"github.com/openconfig/gnmi/connection"
+	"github.com/openconfig/gnmi/manager"
 	"github.com/openconfig/gnmi/verifhook"
 
 	"verif/internal/vlib"
@@ -1268,6 +1269,28 @@ func body(r *vlib.Run) {
 			alive = runTrial(r, "mix", trialNo, rng)
 		}
 	})
+	// The real target manager as the holder (holder.go).
+	manager.RetryBaseDelay = 2 * time.Millisecond
+	manager.RetryMaxDelay = 6 * time.Millisecond
+	hn := r.N(320, 8000)
+	if r.Race {
+		hn = r.N(40, 400)
+	}
+	sem := make(chan struct{}, 8)
+	var wg sync.WaitGroup
+	r.ForTrials("holder", hn, func(trialNo int, rng *rand.Rand) {
+		if !alive || r.NViolations() >= 6 {
+			return
+		}
+		sem <- struct{}{}
+		wg.Add(1)
+		go func() {
+			defer wg.Done()
+			defer func() { <-sem }()
+			holderTrial(r, "holder", trialNo, rng)
+		}()
+	})
+	wg.Wait()
 }
 
 func postMerge(tier string, c map[string]int64) []string {
